@@ -156,7 +156,10 @@ func (ref Target) IsConvertibleToType(typ cty.Type) bool {
 			// anything is convertible to dynamic
 			isConvertible = true
 		}
-		if _, err := convert.Convert(cty.UnknownVal(ref.Type), typ); err == nil {
+		// Only the types matter here, so we look the conversion up
+		// instead of running it on an unknown value, which can panic
+		// inside of go-cty for some nested tuple types.
+		if ref.Type.Equals(typ.WithoutOptionalAttributesDeep()) || convert.GetConversionUnsafe(ref.Type, typ) != nil {
 			isConvertible = true
 		}
 	}
